@@ -51,7 +51,13 @@ def water_switch_overrides():
 
 def jobs(ctx):
     cfgs = [c for c in hist.shipped_configs(ctx) if "/dipoles/" in c or "/water/" in c or "hard_disk" in c]
-    return [(c, {}) for c in cfgs] + [(WATER, water_switch_overrides())] + hist.crowded_jobs(cfgs) \
+    # several composite objects: the chain leaves a composite object whose velocity was accumulated from inexact
+    # weighted velocity changes (rotated velocities of hard-disk dipoles; three point masses after a mode switch)
+    several = [(c, {"RandomInputHandler": {"number_of_root_nodes": 3}}) for c in cfgs if "hard_disk" in c]
+    ov = water_switch_overrides()
+    ov["RandomInputHandler"] = {"number_of_root_nodes": 3}
+    several.append((WATER, ov))
+    return [(c, {}) for c in cfgs] + [(WATER, water_switch_overrides())] + several + hist.crowded_jobs(cfgs) \
         + hist.variations(ctx, cfgs, ctx.n(8, 80))
 
 
